@@ -277,6 +277,20 @@ impl<'tcx> Cx<'tcx> {
             v.push(("intrinsic", J::Bool(tcx.intrinsic(did).is_some())));
         }
         if let Some(tr) = tcx.trait_of_assoc(did) {
+            // how the trait method takes its receiver: by value (`self`), `&self` or `&mut self`
+            if matches!(tcx.def_kind(did), DefKind::AssocFn) {
+                let sig = tcx.fn_sig(did).skip_binder().skip_binder();
+                if let Some(first) = sig.inputs().first() {
+                    let k = match first.kind() {
+                        ty::Ref(_, inner, m) if matches!(inner.kind(), ty::Param(p) if p.name.as_str() == "Self") => {
+                            if m.is_mut() { "refmut" } else { "ref" }
+                        }
+                        ty::Param(p) if p.name.as_str() == "Self" => "value",
+                        _ => "other",
+                    };
+                    v.push(("self_kind", J::s(k)));
+                }
+            }
             v.push(("trait", J::Str(tcx.def_path_str(tr))));
             v.push(("method", J::Str(tcx.opt_item_name(did).map(|n| n.to_string()).unwrap_or_default())));
         }
